@@ -527,3 +527,17 @@ package goat
 //@   ctxaware[C10.unary_worker_escapes]
 //@   captures unaryClientCtx != nil
 //@   atcall[C10.unary_handler_ctx_ends_with_connection] goat.(*handler).processUnaryRpc : arg1 == unaryClientCtx
+
+// ---------------------------------------------------------------------------------
+// constructors: API preconditions; the object invariant of the result is proved at every return
+// (engine rule "result objinv") and the fields it mentions are init_only (C15)
+
+//@ func goat.NewClientConn
+//@   requires conn != nil
+//@   loop 0 invariant[C13.options_keep_wellformed C20.options_keep_wellformed] objinv(cc)
+//@   loop 1 invariant[C13.options_keep_wellformed C20.options_keep_wellformed] objinv(cc)
+//@ func goat.NewDemux
+//@   requires ctx != nil && rw != nil && demuxOn != nil && onNewConnection != nil
+//@ func goat.NewGoatOverHttp
+//@   requires onConnect != nil && sourceToAddress != nil
+//@   loop 0 invariant[C19.options_keep_wellformed] objinv(goh)
